@@ -27,6 +27,8 @@ class Report:
     def rule(self, rid, text):
         self.rules[rid] = text
 
+    aliases = None      # {present fn def: [defs of recorded helpers that were inlined into it]} (set by the driver script)
+
     # ---- recording instances
 
     def _add(self, rule, key, status, detail, loc, nontrivial):
@@ -67,9 +69,24 @@ class Report:
         known_hits = []
         for i in self.instances:
             if i["status"] == "violation":
-                if i["key"] in kf:
+                hit = kf.get(i["key"])
+                if hit is None:
+                    # a recorded helper that was inlined into its caller and deleted takes its findings with it: look the instance up under
+                    # the helper's name as well (vlib/renames.former_callers); the match is still by exact key
+                    for g, ms in (getattr(self, "aliases", None) or {}).items():
+                        if g in i["key"]:
+                            for m in ms:
+                                alt = i["key"].replace(g, m)
+                                if alt in kf:
+                                    hit = kf[alt]
+                                    i["detail"] += " [recorded under `%s`, which was inlined into this fn]" % m
+                                    i["key"] = alt
+                                    break
+                        if hit is not None:
+                            break
+                if hit is not None:
                     i["status"] = "known-finding"
-                    known_hits.append((i, kf[i["key"]]))
+                    known_hits.append((i, hit))
                 else:
                     violations.append(i)
         os.makedirs(os.path.join(evidence_dir(), "replay"), exist_ok=True)
